@@ -395,6 +395,26 @@ impl Builtins {
         panic!("BUG: all branches should return in convert - translator emitted wrong opcode sequence");
     }
 
+    /// The functional operators push a fixed number of arguments for each
+    /// call of their callback; a callback with a different number of
+    /// parameters would pop too few or too many values off the shared stack.
+    fn check_callback_arity(f: &super::Func, args: usize, pos: &Position) -> Result<(), Error> {
+        let arity = f.bindings.len();
+        if arity != args {
+            return Err(Error::new(
+                format!(
+                    "Func called with too {} args expected {} args but got {}",
+                    if args > arity { "many" } else { "few" },
+                    arity,
+                    args
+                )
+                .into(),
+                pos.clone(),
+            ));
+        }
+        Ok(())
+    }
+
     fn map<O, E>(
         &self,
         stack: &mut Vec<(Rc<Value>, Position)>,
@@ -427,6 +447,7 @@ impl Builtins {
 
         match *list.as_ref() {
             C(List(ref elems, ref elems_pos_list)) => {
+                Self::check_callback_arity(f, 1, &fptr_pos)?;
                 let mut result_elems = Vec::new();
                 let mut pos_elems = Vec::new();
                 for (counter, e) in elems.iter().enumerate() {
@@ -442,6 +463,7 @@ impl Builtins {
                 stack.push((Rc::new(C(List(result_elems, pos_elems))), list_pos));
             }
             C(Tuple(ref flds, ref flds_pos_list)) => {
+                Self::check_callback_arity(f, 2, &fptr_pos)?;
                 let mut new_fields = Vec::new();
                 let mut new_flds_pos_list = Vec::new();
                 for (counter, (name, val)) in flds.iter().enumerate() {
@@ -474,6 +496,7 @@ impl Builtins {
                 stack.push((Rc::new(C(Tuple(new_fields, new_flds_pos_list))), pos));
             }
             P(Str(ref s)) => {
+                Self::check_callback_arity(f, 1, &fptr_pos)?;
                 let mut buf = String::new();
                 for c in s.chars() {
                     stack.push((Rc::new(P(Str(c.to_string().into()))), list_pos.clone()));
@@ -533,6 +556,7 @@ impl Builtins {
 
         match *list.as_ref() {
             C(List(ref elems, ref elems_pos_list)) => {
+                Self::check_callback_arity(f, 1, &fptr_pos)?;
                 let mut result_elems = Vec::new();
                 let mut pos_elems = Vec::new();
                 for (counter, e) in elems.iter().enumerate() {
@@ -557,6 +581,7 @@ impl Builtins {
                 stack.push((Rc::new(C(List(result_elems, pos_elems))), pos));
             }
             C(Tuple(ref flds, ref pos_list)) => {
+                Self::check_callback_arity(f, 2, &fptr_pos)?;
                 let mut new_fields = Vec::new();
                 let mut new_flds_pos_list = Vec::new();
                 for (counter, (name, val)) in flds.iter().enumerate() {
@@ -581,6 +606,7 @@ impl Builtins {
                 stack.push((Rc::new(C(Tuple(new_fields, new_flds_pos_list))), pos));
             }
             P(Str(ref s)) => {
+                Self::check_callback_arity(f, 1, &fptr_pos)?;
                 let mut buf = String::new();
                 for c in s.chars() {
                     stack.push((Rc::new(P(Str(c.to_string().into()))), list_pos.clone()));
@@ -681,6 +707,7 @@ impl Builtins {
 
         match *list.as_ref() {
             C(List(ref elems, ref elems_pos_list)) => {
+                Self::check_callback_arity(f, 2, &fptr_pos)?;
                 for (counter, e) in elems.iter().enumerate() {
                     let e_pos = elems_pos_list[counter].clone();
                     // push function arguments on the stack.
@@ -694,6 +721,7 @@ impl Builtins {
                 }
             }
             C(Tuple(ref _flds, ref flds_pos_list)) => {
+                Self::check_callback_arity(f, 3, &fptr_pos)?;
                 for (counter, (name, val)) in _flds.iter().enumerate() {
                     let name_pos = flds_pos_list[counter].0.clone();
                     let val_pos = flds_pos_list[counter].1.clone();
@@ -709,6 +737,7 @@ impl Builtins {
                 }
             }
             P(Str(ref s)) => {
+                Self::check_callback_arity(f, 2, &fptr_pos)?;
                 for c in s.chars() {
                     // push function arguments on the stack.
                     stack.push((acc.clone(), acc_pos.clone()));
